@@ -15,7 +15,7 @@ import DsdVerif.Lemmas.PyKernel
 import DsdVerif.Lemmas.PyKernelTokens
 import DsdVerif.Props.C12Kernel
 import DsdVerif.Props.C12Text
-import DsdVerif.Lemmas.PyObjBasic
+import DsdVerif.Lemmas.PyObjKernel
 
 namespace Dsd.PyKernel
 open Dsd Dsd.PP Dsd.Gen Dsd.PyKernelL
@@ -134,7 +134,7 @@ theorem py_kernel_text_roundtrip (name : List Char) (seq : List String) (sst : L
 
 /-- the str that the TRANSLATED `ComplexS.kernel_string` returns for an object (which it leaves unchanged), written after
     `name = `, parses to the kernel-complex statement whose pattern the TRANSLATED `resolve_kernel_loops` turns back into the
-    object's sequence and structure (`PyObj.Basic.exec_kernel_string` ∘ `C12.kernel_text_roundtrip` ∘ the equality above) -/
+    object's sequence and structure (`PyObj.Kernel.exec_kernel_string` ∘ `C12.kernel_text_roundtrip` ∘ the equality above) -/
 theorem py_kernel_string_roundtrip (s : ComplexS.Self) (name : List Char) (t : List (Option Nat))
     (hn : C13.Ident name) (hl : C13.LegalNames s._sequence s._structure) (hne : s._structure ≠ [])
     (h : C12.KDescr s._sequence s._structure t) (hc : C12.Complementary s._sequence t) :
@@ -144,7 +144,7 @@ theorem py_kernel_string_roundtrip (s : ComplexS.Self) (name : List Char) (t : L
       (treeSize 1000 toks < 1000 →
         py_resolve_kernel_loops (treeSize 1000 toks + 2) toks = .ok (s._sequence, s._structure)) := by
   obtain ⟨toks, _, h2, h3⟩ := py_kernel_text_roundtrip name s._sequence s._structure t hn hl hne h hc
-  exact ⟨_, toks, PyObj.Basic.exec_kernel_string s hl.1, h2, h3⟩
+  exact ⟨_, toks, PyObj.Kernel.exec_kernel_string s hl.1, h2, h3⟩
 
 /-- non-vacuity: a two-strand complex with a nested loop and an empty hairpin, through the transcription -/
 example : (kernelTokens ["a", "b", "+", "b*", "c", "c*", "a*"] ['(', '(', '+', ')', '(', ')', ')']).map
